@@ -60,6 +60,8 @@ void heap_begin_run(HeapPolicy policy, uint8_t fill_fresh, uint8_t fill_freed);
 // storage duration refers to (directly or through another retained block): leaked, as opposed to retained until the thread / process ends
 size_t heap_end_run();
 size_t heap_last_retained_blocks();        // SUT blocks of the run just ended that are still live but referred to from static / thread storage
+void heap_note_thread_roots();             // called by a thread other than the main one that will execute library code: its thread-local storage is a root too
+void heap_forget_thread_roots();           // (after fork: those threads do not exist in the child)
 size_t heap_sut_bytes_live();              // bytes in SUT blocks of any run that are live right now
 size_t heap_live_sut_blocks();             // SUT blocks allocated in the current run and still live
 bool heap_lookup(const void *p, BlockInfo *out);   // p must be the base of a live block
